@@ -14,6 +14,7 @@ Case kinds
 import itertools
 import math
 import os
+import random
 import tempfile
 from fractions import Fraction as F
 
@@ -1230,31 +1231,177 @@ def gen_vtkenc(rng, tier):
     return c
 
 
-def generate(rng, tier):
-    quick = tier == "quick"
-    cases = []
-    single = gen_single_op_cases(rng, tier)
+def core_cases():
+    """seed-independent DIRECTED CORE: identical in every run, tier and seed.  One small group per mechanism a
+    seeded change (rounds a-e, /verif/seeded/C08-*) or a hardening round pointed at, plus the survey list of every
+    public operation.  Built from a fixed Random(424242) and hand-written masks."""
+    rng = random.Random(424242)
+    out = []
+    single = gen_single_op_cases(rng, "quick")
     for c in single:
         if not c.get("expect_reject"):
             c["mid"] = [[k, [rng.randrange(64) for _ in range(rng.randint(1, 3))]] for k in range(3)]
-    cases += single
-    for _ in range(420 if quick else 4000):
+    out += single
+
+    def mesh3(n=(3, 2, 2), cell=(1, 1, 1), p1=(0, 0, 0)):
+        return dict(n=list(n), cell=[g.qs(F(x)) for x in cell], p1=[g.qs(F(x)) for x in p1], kind="expr")
+
+    def leaf(n, nv, mask, vals=None, **kw):
+        ncell = math.prod(n)
+        if vals is None:
+            vals = [((3 * i + 1) % 7) - 3 or 2 for i in range(ncell * nv)]          # never zero
+        d = dict(nvdim=nv, vals=[g.qs(F(v)) for v in vals], mask=list(mask), cplx=False)
+        d.update(kw)
+        return d
+
+    def asym(ncell, k=0):
+        return [((i * 5 + k) % 7) not in (0, 3, 4) for i in range(ncell)]              # no symmetry under turns
+
+    def expr(n, leaves, tree, **kw):
+        c = mesh3(n) if len(n) == 3 else dict(n=list(n), cell=[g.qs(F(1))] * len(n), p1=[g.qs(F(0))] * len(n), kind="expr")
+        c["leaves"] = leaves
+        c["tree"] = tree
+        c.update(kw)
+        return c
+    n = [3, 2, 2]
+    nc = 12
+    some = asym(nc)
+    other = asym(nc, 2)
+    allv = [True] * nc
+
+    # b1: diff with restrict2valid=False on a field with invalid cells (all axes, both orders, periodic too)
+    for ax in range(3):
+        for order in (1, 2):
+            out.append(expr(n, [leaf(n, 3, some), leaf(n, 3, other), leaf(n, 1, other)],
+                            ["un", "diff", dict(ax=ax, order=order, restrict=False), ["leaf", 0 if order == 1 else 2]],
+                            bc="x" if ax == 0 and order == 2 else None))
+    # b2: scalar field with invalid cells (op) all-valid vector field, and the commuted spelling
+    for name in ("add", "sub", "mul", "div", "pow"):
+        out.append(expr(n, [leaf(n, 3, allv), leaf(n, 3, allv), leaf(n, 1, some)], ["bin", name, {}, ["leaf", 2], ["leaf", 0]]))
+        out.append(expr(n, [leaf(n, 3, allv), leaf(n, 3, allv), leaf(n, 1, some)], ["bin", name, {}, ["leaf", 0], ["leaf", 2]]))
+    # c1: quarter turns with the axes in descending order, odd and even k, copy and in place
+    for (a, b) in ((1, 0), (2, 0), (2, 1), (0, 1), (0, 2)):
+        for k in (1, 3, -1, 2):
+            out.append(expr(n, [leaf(n, 3, some), leaf(n, 3, other), leaf(n, 1, other)],
+                            ["map", "rot90", dict(a=a, b=b, k=k), ["leaf", 2 if k == 3 else 0]]))
+        md = mesh3(n)
+        md.update(kind="mapdata", mask=some, map=["rot90", dict(a=a, b=b, k=1, inplace=(a + b) % 2 == 1)])
+        out.append(md)
+    # c2: multi-output ufunc on two fields with different masks, both outputs; scalar second operand
+    for f_ in ("divmod0", "divmod1"):
+        out.append(expr(n, [leaf(n, 3, some), leaf(n, 3, other), leaf(n, 1, allv)], ["bin", "ufunc2", dict(f=f_), ["leaf", 0], ["leaf", 1]]))
+        out.append(expr(n, [leaf(n, 3, allv), leaf(n, 3, other), leaf(n, 1, some)], ["bin", "ufunc2", dict(f=f_), ["leaf", 0], ["leaf", 2]]))
+    # c3 / d2: explicit validity, valid cells holding zero and sub-threshold vectors: unary results keep the
+    # operand's validity; an all-valid field with zero cells survives the HDF5 (and VTK) round trip
+    zvals = []
+    for i in range(nc):
+        zvals += {0: [0, 0, 0], 1: [F(1, 2 ** 40), F(-3, 2 ** 40), 0], 2: [F(9e-9), 0, 0]}.get(i % 4, [i, -1, 2])
+    for name, p in (("orient", {}), ("norm", {}), ("abs", {}), ("neg", {}), ("comp", dict(c=1)), ("anglec", {}),
+                    ("ufunc1", dict(f="sign"))):
+        out.append(expr(n, [leaf(n, 3, allv, zvals), leaf(n, 3, other), leaf(n, 1, other)], ["un", name, p, ["leaf", 0]]))
+        out.append(expr(n, [leaf(n, 3, some, zvals), leaf(n, 3, other), leaf(n, 1, other)], ["un", name, p, ["leaf", 0]]))
+    for mp in (("hdf5", {}), ("vtk", dict(rep="bin")), ("vtk", dict(rep="xml"))):
+        out.append(expr(n, [leaf(n, 3, allv, zvals), leaf(n, 3, other), leaf(n, 1, allv, [0] * nc)], ["map", mp[0], mp[1], ["leaf", 0]]))
+        out.append(expr(n, [leaf(n, 3, allv, zvals), leaf(n, 3, other), leaf(n, 1, allv, [0] * nc)], ["map", mp[0], mp[1], ["leaf", 2]]))
+        out.append(expr(n, [leaf(n, 3, some, zvals), leaf(n, 3, other), leaf(n, 1, some)], ["map", mp[0], mp[1], ["leaf", 0]]))
+    # d1: resampling ratios that put new centres exactly on old faces, validity differing between the tied cells
+    for (a, b) in ((10, 5), (12, 2), (4, 6), (6, 3), (2, 1), (8, 4), (4, 2), (6, 9)):
+        for pat in (0, 1):
+            md = dict(n=[a], cell=[g.qs(F(1))], p1=[g.qs(F(0))], kind="mapdata",
+                      mask=[(i + pat) % 2 == 0 for i in range(a)], map=["resample", dict(sh=[b])])
+            out.append(md)
+            md = dict(n=[2, a], cell=[g.qs(F(1)), g.qs(F(1, 2))], p1=[g.qs(F(0)), g.qs(F(-1))], kind="mapdata",
+                      mask=[(i // a + i + pat) % 2 == 0 for i in range(2 * a)], map=["resample", dict(sh=[2, b])])
+            out.append(md)
+    # d3 / e1: results that must not be (or share memory with) the operand: real / imag / conjugate and every
+    # pass-through on real, integer and complex data; in-place write into the result afterwards (probe in observe)
+    for dt in (None, "int32", "float32", "complex"):
+        for name, p in (("real", {}), ("conj", {}), ("imag", {}), ("neg", {}), ("abs", {}), ("comp", dict(c=0)), ("norm", {}),
+                        ("scalar", dict(form="float", op="mul", v=2)), ("diff", dict(ax=0, order=1, restrict=True)),
+                        ("ufunc1", dict(f="positive")), ("cabs", {}), ("phase", {})):
+            lv = [leaf(n, 3, some), leaf(n, 3, other), leaf(n, 1, other)]
+            if dt:
+                for l_ in lv:
+                    l_["dtype"] = dt
+            out.append(expr(n, lv, ["un", name, p, ["leaf", 0]]))
+        for mp in (("range", dict(ax=0, lo=0, hi=2)), ("range", dict(ax=1, lo=1, hi=1)), ("plane", dict(ax=2, k=1)),
+                   ("block", dict(offs=[0, 0, 0], sh=[3, 2, 2])), ("block", dict(offs=[1, 0, 1], sh=[2, 2, 1]))):
+            lv = [leaf(n, 3, some), leaf(n, 3, other), leaf(n, 1, other)]
+            if dt:
+                for l_ in lv:
+                    l_["dtype"] = dt
+            out.append(expr(n, lv, ["map", mp[0], dict(mp[1]), ["leaf", 0]]))
+    # e1: the caller's Boolean array of the mesh shape is copied by the setter
+    for how in ("ctor", "assign"):
+        for nv in (1, 3):
+            out.append(dict(n=[2, 3], cell=[g.qs(F(1))] * 2, p1=[g.qs(F(0))] * 2, kind="setter", how=how, nvdim=nv,
+                            v=["array", [2, 3], "bool", [True, False, True, True, False, True], False],
+                            vals=[1, 0, -2, 3, 1, 1] * nv))
+    # e2: VTK round trip with 1, 2, 3 and 4 components in every representation, some invalid cells
+    for nv in (1, 2, 3, 4):
+        for rep in ("bin", "txt", "xml"):
+            out.append(expr(n, [leaf(n, nv, some), leaf(n, nv, other), leaf(n, 1, other)], ["map", "vtk", dict(rep=rep), ["leaf", 0]]))
+    # e3: dot / @ / angle between fields with different masks, then the left operand again
+    for name, p in (("dot", dict(form=0)), ("dot", dict(form=1)), ("angle", {}), ("cross", dict(form=0))):
+        out.append(expr(n, [leaf(n, 3, allv), leaf(n, 3, other), leaf(n, 1, other)], ["bin", name, p, ["leaf", 0], ["leaf", 1]]))
+        out.append(expr(n, [leaf(n, 3, some), leaf(n, 3, other), leaf(n, 1, other)],
+                        ["bin", "add", {}, ["un", "norm", {}, ["leaf", 0]], ["bin", name, p, ["leaf", 0], ["leaf", 1]]]
+                        if name != "cross" else ["bin", name, p, ["leaf", 0], ["leaf", 1]],
+                        mid=[[1, [0, 5]], [0, [2]]]))
+    # a3: numpy.pad options reach the mask as they reach the data
+    for cv in (1, 5, 0, None):
+        for ax in (0, 2):
+            out.append(expr(n, [leaf(n, 3, some), leaf(n, 3, other), leaf(n, 1, other)],
+                            ["map", "pad", dict(mode="constant", ax=ax, before=1, after=2, cv=cv), ["leaf", 0]]))
+    out.append(expr(n, [leaf(n, 3, some), leaf(n, 3, other), leaf(n, 1, other)],
+                    ["map", "pad2", dict(mode="constant", ax=0, before=1, after=1, ax2=1, before2=2, after2=0, cv=1), ["leaf", 2]]))
+    # a1: 'norm' looks at the vector length, not at the components
+    for nv, vec in ((3, [8e-9, 8e-9, 8e-9]), (2, [7e-9, 8e-9]), (3, [5e-9, 5e-9, 5e-9]), (4, [6e-9, 6e-9, 6e-9, 6e-9]),
+                    (2, [9e-9, 9e-9]), (3, [1e-9, 1e-9, 1e-9])):
+        for how in ("ctor", "assign", "rewrite"):
+            vals = []
+            for i in range(4):
+                vals += [(-x if (i + j) % 2 else x) for j, x in enumerate(vec)] if i != 2 else [0.0] * nv
+            out.append(dict(n=[4], cell=[g.qs(F(1))], p1=[g.qs(F(0))], kind="norm", nvdim=nv, vals=[g.qs(F(x)) for x in vals],
+                            exact=False, how=how, dtype=None))
+    # out= spellings (repaired finding C08-ufunc-out-validity)
+    for uf in ("add", "negative", "divmod"):
+        for om in (None, "shift"):
+            c = dict(n=[2, 2], cell=[g.qs(F(1))] * 2, p1=[g.qs(F(0))] * 2, kind="ufout", uf=uf, tuple_out=uf == "add" and om is None,
+                     leaves=[leaf([2, 2], 2, [True, False, True, True]), leaf([2, 2], 2, [True, True, False, True]),
+                             leaf([2, 2], 2, [False, True, True, True])])
+            if om:
+                c["other_mesh"] = om
+            out.append(c)
+    for c in out:
+        for k in [k for k, v in c.items() if v is None and k in ("bc",)]:
+            c.pop(k)
+        c["core"] = True
+    return out
+
+
+def generate(rng, tier):
+    quick = tier == "quick"
+    cases = core_cases()
+    if os.environ.get("VERIF_C08_CORE_ONLY"):
+        return cases
+    for _ in range(380 if quick else 3600):
         cases.append(gen_expr_case(rng, tier))
     for cat in ("map", "bin", "un"):
-        for _ in range(40 if quick else 300):
+        for _ in range(30 if quick else 300):
             cases.append(gen_expr_case(rng, tier, force=cat))
-    for _ in range(60 if quick else 400):
+    for _ in range(40 if quick else 400):
         cases.append(gen_geo_case(rng, tier))
-    for _ in range(260 if quick else 2500):
+    for _ in range(220 if quick else 2500):
         cases.append(gen_mapdata(rng, tier))
-    for _ in range(220 if quick else 1500):
+    for _ in range(200 if quick else 1500):
         cases.append(gen_setter(rng, tier))
     for _ in range(40 if quick else 300):
         cases.append(gen_norm(rng, tier, True))
         cases.append(gen_norm(rng, tier, False))
     for _ in range(15 if quick else 100):
         cases.append(gen_vtkenc(rng, tier))
-    for _ in range(30 if quick else 200):
+    for _ in range(25 if quick else 200):
         cases.append(gen_ufout(rng, tier))
     return cases
 
